@@ -4,13 +4,13 @@ import DT.Locate
 namespace PyAst
 
 /- `touch search n`: the transformer can act on `n` or below it — `n` carries the searched
-    location, or is a `FunctionDef` whose location is the search minus its last segment
+    location and is not a string constant, or is a `FunctionDef` whose location is the search minus its last segment
     (`visit_FunctionDef` never descends, so nothing below a `FunctionDef` counts). -/
 mutual
   def touchNode (search : List Atom) : Node → Bool
     | .mk k fs l _ _ =>
       if k == "FunctionDef" then l == some (search.take (search.length - 1))
-      else l == some search || touchFields search fs
+      else (l == some search && k != "Constant") || touchFields search fs
   def touchFields (search : List Atom) : List (String × Field) → Bool
     | [] => false
     | (_, f) :: rest => touchField search f || touchFields search rest
@@ -54,7 +54,9 @@ mutual
         · simp only [hk, if_true] at h ⊢
           exact visitFunctionDef_untouched st _ h
         · simp only [hk, Bool.false_eq_true, if_false, Bool.or_eq_false_iff] at h ⊢
-          simp only [h.1, Bool.and_false, Bool.false_eq_true, if_false]
+          have h1 : (!st.replaced && l == some st.search && k != "Constant") = false := by
+            rw [Bool.and_assoc, h.1, Bool.and_false]
+          simp only [h1, Bool.false_eq_true, if_false]
           rw [visitFields_untouched st fs h.2]
   theorem visitFields_untouched (st : RW) : ∀ fs, touchFields st.search fs = false → visitFields st fs = (st, fs)
     | [] => by intro _; simp [visitFields]
@@ -112,6 +114,25 @@ mutual
     | .node n => by simp only [visitItem]; rw [visit_replaced st h n]
     | .atom a => by simp [visitItem]
 end
+
+/-- **a string constant is never what gets replaced** (fix b-D25): whatever location it carries and whatever the
+    search, a `Constant` node comes back as a `Constant` with the same location -/
+theorem visit_constant_kept (st : RW) (fs : List (String × Field)) (l : Option (List Atom)) (i : Option Int) (d : Option Item) :
+    (visit st (.mk "Constant" fs l i d)).2.kind = "Constant" ∧ (visit st (.mk "Constant" fs l i d)).2.loc = l := by
+  unfold visit
+  split
+  · exact ⟨rfl, rfl⟩
+  · have hk : ("Constant" == "FunctionDef") = false := by decide
+    have hc : ("Constant" != "Constant") = false := by decide
+    simp only [hk, hc, Bool.and_false, Bool.false_eq_true, if_false]
+    exact ⟨rfl, rfl⟩
+
+/-- the old transformer did replace it: the witness of D25 (`x = 'a'` before `def meth(a=1)`) in miniature -/
+example :
+    let c : Node := .mk "Constant" [] (some [.str "meth", .str "a"]) none none
+    let st : RW := { search := [.str "meth", .str "a"], repl := .mk "arg" [] none none none }
+    (visit st c).2.kind = "Constant" ∧ st.replaced = false ∧ c.loc = some st.search := by
+  decide
 
 /- the transformer's search is invariant (the Python never assigns `self.search`) -/
 mutual
